@@ -1825,16 +1825,20 @@ class InventoryTreeTransform(DiskTreeTransform):
             except BaseException:
                 mover.rollback()
                 raise
-            else:
-                mover.apply_deletions()
         from bzrformats.inventory_delta import InventoryDelta
 
-        if self.final_file_id(self.root) is None:
-            inventory_delta = [e for e in inventory_delta if e[0] != ""]
-        if not isinstance(inventory_delta, InventoryDelta):
-            inventory_delta = InventoryDelta(list(inventory_delta))
-        self._tree.apply_inventory_delta(inventory_delta)
-        self._apply_observed_sha1s()
+        try:
+            if self.final_file_id(self.root) is None:
+                inventory_delta = [e for e in inventory_delta if e[0] != ""]
+            if not isinstance(inventory_delta, InventoryDelta):
+                inventory_delta = InventoryDelta(list(inventory_delta))
+            self._tree.apply_inventory_delta(inventory_delta)
+            self._apply_observed_sha1s()
+        finally:
+            # Discard the replaced content only after the tree's metadata has
+            # been updated: if a deletion fails, the files on disk and the
+            # metadata both describe the new layout.
+            mover.apply_deletions()
         self._done = True
         self.finalize()
         return _TransformResults(modified_paths, self.rename_count)
